@@ -195,7 +195,8 @@ def sample_case(fam, rng):
         b1 = b0 + 10.0 ** rng.uniform(-1, 1.5)
         w = b1 - b0
         inside = lambda: b0 + w * rng.uniform(0.05, 0.95)
-        outside = lambda: (b1 + w * rng.uniform(0.2, 3)) if rng.random() < 0.5 else (b0 - w * rng.uniform(0.2, 3))
+        far = lambda: rng.uniform(0.02, 0.3) if rng.random() < 0.5 else rng.uniform(0.3, 3)    # other roots close to / far from the bracket
+        outside = lambda: (b1 + w * far()) if rng.random() < 0.5 else (b0 - w * far())
         r = {"one_in": [inside(), outside(), outside()], "three_in": [inside(), inside(), inside()],
              "two_in": [inside(), inside(), outside()], "none_in": [outside(), outside(), outside()],
              "left_end": [b0, outside(), outside()], "right_end": [b1, outside(), outside()],
@@ -227,11 +228,12 @@ def sample_case(fam, rng):
             scen, b0, root = "no_root", root + 0.1 * (b1 - root), None
         p = [s, k, c, d]
     elif fam == "sinlin":
-        k = rng.uniform(0.5, 8)
+        k = rng.uniform(0.5, 12)
         m = rng.choice([0.0, rng.uniform(-0.5, 0.5), rng.uniform(1, 3)])
         c = rng.uniform(-0.9, 0.9)
-        b0 = -rng.uniform(0.5, 6)
-        b1 = rng.uniform(0.5, 6)
+        ctr = rng.uniform(-3, 3)
+        b0 = ctr - rng.uniform(0.2, 4)
+        b1 = ctr + rng.uniform(0.2, 4)
         p = [s, k, m, c]
     elif fam == "cube":
         c = rng.uniform(-2, 2)
